@@ -131,6 +131,7 @@ type FuncSpec struct {
 	Updates  []Update
 	Modifies []string // raw modifies items; "nothing" => pure wrt heap
 	HasMod   bool
+	ModAll   bool // modifies everything
 	Loops    map[int]*LoopSpec
 	Assumes  []Clause // counted
 	Trusted  bool     // contract is assumed, body not verified (stdlib / external)
@@ -724,6 +725,9 @@ func (p *sparser) parseClauses(fs *FuncSpec) {
 			for {
 				if p.isKw("nothing") {
 					p.next()
+				} else if p.isKw("everything") {
+					p.next()
+					fs.ModAll = true
 				} else {
 					e := p.postfix()
 					fs.Modifies = append(fs.Modifies, e.String())
